@@ -12,7 +12,8 @@ Case format
   ops      : [op, ...]                     each run under try/except
      {"op":"set","t":t,"p":p,"rhs":rhs}          t.p = rhs                (instance route)
      {"op":"setCls","t":t,"p":p,"rhs":rhs}       T<t>.p = rhs             (class route)
-     {"op":"update","t":t,"kvs":[[p,rhs],..]}    t.param.update({...})    (update route)
+     {"op":"update","t":t,"kvs":[[p,rhs],..]}    t.param.update({...})    (update route; "form": "pos" positional
+                                                 iterable of pairs (default), "dict" positional dict, "kw" keywords)
      {"op":"ctxEnter","t":t,"kvs":[[p,rhs],..]}  r = t.param.update({...}); r.__enter__()   (restorer pushed)
      {"op":"ctxExit"}                            r.__exit__(None, None, None)               (restorer popped)
      {"op":"srcSet","s":s,"i":i,"v":n}           S<s>.v<i> = n
@@ -195,7 +196,13 @@ class Runner:
         elif o in ('update', 'ctxEnter'):
             t = op['t']
             kw = [(self.tnames[t][p] if p < len(self.tnames[t]) else f'q{p}', self.mk_rhs(r)) for p, r in op['kvs']]
-            r = self.tgts[t].param.update(kw)      # an iterable of pairs keeps duplicate keys as written
+            form = op.get('form', 'pos')
+            if form == 'kw':
+                r = self.tgts[t].param.update(**dict(kw))
+            elif form == 'dict':
+                r = self.tgts[t].param.update(dict(kw))
+            else:
+                r = self.tgts[t].param.update(kw)      # an iterable of pairs keeps duplicate keys as written
             if o == 'ctxEnter':
                 r.__enter__()
                 self.stack.append(r)
@@ -253,7 +260,7 @@ def twin_ops(ops, steps):
         if st['err'] in ('ValueError', 'TypeError') and op['op'] in ASSIGN_OPS:
             if op['op'] in ('update', 'ctxEnter'):
                 announced = sum(len(e[2]) for e in st['log'] if e[0] == 't' and e[1] == op['t'])
-                out.append({'op': 'update', 't': op['t'], 'kvs': op['kvs'][:announced]})
+                out.append({'op': 'update', 't': op['t'], 'kvs': op['kvs'][:announced], 'form': op.get('form', 'pos')})
             else:
                 out.append({'op': 'update', 't': op['t'], 'kvs': []})
         else:
@@ -398,11 +405,12 @@ def gen_history(rng, targets, src, n_ops, nsrc, nsp, p_bad_src=0.06):
         elif r < 0.84 and linkable:
             ks = rng.sample(linkable, rng.randint(1, min(3, len(linkable))))
             kvs = [[p, rand_ref(rng, nsrc, nsp, pds[p], src) if rng.random() < 0.5 else rand_plain(rng, pds[p])] for p in ks]
+            form = rng.choice(['pos', 'dict', 'kw'])
             if depth < 2 and rng.random() < 0.6:
-                ops.append({'op': 'ctxEnter', 't': t, 'kvs': kvs})
+                ops.append({'op': 'ctxEnter', 't': t, 'kvs': kvs, 'form': form})
                 depth += 1
             else:
-                ops.append({'op': 'update', 't': t, 'kvs': kvs})
+                ops.append({'op': 'update', 't': t, 'kvs': kvs, 'form': form})
         elif r < 0.92 and depth:
             ops.append({'op': 'ctxExit'})
             depth -= 1
@@ -481,7 +489,8 @@ def rejected_op(rng, targets, src, nsrc, nsp, kind, route, t=None, prefer=None):
         if rng.random() < 0.4:
             post = [q for q in others if q not in pre]
             kvs += [[q, rand_plain(rng, pds[q])] for q in post[:1]]
-    return {'op': 'ctxEnter' if route == 'ctxEnter' else 'update', 't': t, 'kvs': kvs, 'note': note + (':later' if len(kvs) > 1 else '')}
+    return {'op': 'ctxEnter' if route == 'ctxEnter' else 'update', 't': t, 'kvs': kvs, 'form': rng.choice(['pos', 'dict', 'kw']),
+            'note': note + (':later' if len(kvs) > 1 else '')}
 
 
 def probe_suffix(rng, src, nsrc, nsp, rounds=1):
@@ -564,6 +573,8 @@ def tags(case, impl):
                 t.append(f'late:{rhs_kind(op["rhs"])}:{e}')
             else:
                 t.append(f'{op["op"]}:{e}')
+            if op['op'] in ('update', 'ctxEnter'):
+                t.append(f'{op["op"]}:form:{op.get("form", "pos")}')
     elif isinstance(impl, dict) and impl.get('ctor_err'):
         t.append('ctor_err:' + impl['ctor_err'])
     return t
